@@ -272,6 +272,9 @@ PENDING_REASON = "check not built yet in this round (design in DESIGN.md section
 
 # Extensions made after the seeding waves (appended to the level text / note of the check).
 ADDENDA = {
+    "C16": " Field values include equal-but-distinguishable pairs (True/1, float(default)/default, fresh equal tuples); "
+           "alteration of existing objects is judged by identity of constituent namespaces and by the type of every "
+           "field, not by ==.",
     "C17": " Also tall-narrow sources (columns < rows), off-grid pixel sizes at two cell sizes, the global cell ratio "
            "{0.25, 1.0, 2.0, ...}, canvases trimmed after their image was rendered again at another size, and pairs of "
            "content() iterators advanced in lock step.",
